@@ -992,7 +992,7 @@ class RotateRight(Logic):
             
         last = a
         for i in range(wb):
-            shifted = self.wire('shifted{}'.format(i), r.getWidth())
+            shifted = self.wire('shifted{}'.format(i), max(w, r.getWidth()))
             RotateRightConstant(self, 'shifted{}'.format(i), last, 1<<i, shifted)
             
             doShift = self.wire(f'doShift{i}')
@@ -1039,7 +1039,7 @@ class RotateLeft(Logic):
             
         last = a
         for i in range(wb):
-            shifted = self.wire('shifted{}'.format(i), r.getWidth())
+            shifted = self.wire('shifted{}'.format(i), max(w, r.getWidth()))
             RotateLeftConstant(self, 'shifted{}'.format(i), last, 1<<i, shifted)
             
             doShift = self.wire(f'doShift{i}')
